@@ -238,6 +238,7 @@ WindowEvents(s) ==
   \cup Deletes({"c1"}, {1}, 1..2)
   \cup (IF s.l1seq["1"] <= 1 THEN Deposits({"u1"}, {1}, {"u2"}, {"d1"}, {1}, {"p0"}) ELSE {})
   \cup {Claim("x", 1, o, W1, 0, "T1", 1, "h1", "none") : o \in 1..2}
+  \cup (IF s.now = 0 THEN {[type |-> "InitRaw", period |-> p] : p \in {-1, 0, 1}} ELSE {})     \* a genesis file with other periods handed to InitGenesis
 
 Events(s) ==
   CASE Fam = "window" -> WindowEvents(s)
